@@ -443,6 +443,7 @@ BOUNDARY = [
     ("a = {n = 1}", "[a.x]\n[c]\n[a.y]\nz = 1", True),
     ("a = {n = {m = 1}}", "[a.n.x]\n[c]\n[a.n.y]\nz = 1", True),
     ("[a.x]\nk = 1\n[c]\nk = 2\n[a.y]\nz = 1\n[a]\nw = 0", None, True),
+    ("[c.a]\n[c]\nn = 0\n[c.a.a]", "[c]\na = []", True),
     ("[a.x]\nk = 1\n[c]\nk = 2\n[a.y]\nz = 1\n[a]\nw = 0", "[a.y]\nz = 2\n[d]\n[a.x]\nk = 3\nj = 4", True),
     ("[a]\nx = 1\n\x0b\n[b]\ny = 2", None, True),
     ("\u00a0\n[a]\nx = 1", None, True),
@@ -546,8 +547,30 @@ class C20(Prop):
                     ent.append([k, ["L", rng.choice(["1", "2", "3", '"s"', "[1,2]", "[]"])]])
             return ["T", ent]
 
-        for _ in range(ctx.pick(3000, 150000)):
-            out.append(("random-merge", {"k": "merge", "a": rtree(0), "b": rtree(0)}))
+        def rmut(t, depth):
+            """a tree related to t: keys dropped, kept, changed, retyped (leaf<->table), added; order shuffled"""
+            ent = []
+            for k, s in t[1]:
+                c = rng.random()
+                if c < 0.3:
+                    continue
+                if c < 0.45:
+                    ent.append([k, copy.deepcopy(s)])
+                elif s[0] == "T" and c < 0.85:
+                    ent.append([k, rmut(s, depth + 1)])
+                elif c < 0.92 or depth >= 4:
+                    ent.append([k, ["L", rng.choice(["1", "2", "4", '"u"', "[2]"])]])
+                else:
+                    ent.append([k, rtree(depth + 1)])
+            for k in rng.sample(["a", "b", "c", "d", "e", "f"], rng.randrange(0, 3)):
+                if k not in [x for x, _ in ent]:
+                    ent.append([k, rtree(depth + 1) if depth < 4 and rng.random() < 0.3 else ["L", rng.choice(["5", '"n"'])]])
+            rng.shuffle(ent)
+            return ["T", ent]
+
+        for i in range(ctx.pick(3000, 150000)):
+            a = rtree(0)
+            out.append(("random-merge", {"k": "merge", "a": a, "b": rmut(a, 0) if i % 2 else rtree(0)}))
         for _ in range(ctx.pick(300, 20000)):
             n = rng.randrange(0, 12)
             parts = []
@@ -686,8 +709,20 @@ class C20(Prop):
         def un(l):
             return l if l[0] == "err" else unordered(l)
 
-        return ([un(l) for l in io["loads"]] == [un(l) for l in mo["loads"]] and io["files"] == mo["files"]
-                and io["only_file"] == mo["only_file"])
+        if ([un(l) for l in io["loads"]] == [un(l) for l in mo["loads"]] and io["files"] == mo["files"]
+                and io["only_file"] == mo["only_file"]):
+            return True
+        # open finding F18: tomlkit's OutOfOrderTableProxy (a default table defined in separated pieces) loses sibling
+        # keys on assignment. The model has dict semantics and does not reproduce that; inside the finding's scope a
+        # result that fails the oracle is attributed to the finding, not to the model (files must still agree).
+        if io["files"] == mo["files"] and self.scope(case, io) == F18 and self.oracle(case, io):
+            return True
+        return False
+
+    def scope(self, case, out):
+        if case.get("k") == "load" and case["user"] is not None and _out_of_order(case["default"]):
+            return F18
+        return None
 
     # ---- the property ----
     def oracle(self, case, out):
@@ -822,6 +857,34 @@ def _parse_tree(text):
         if _is_toml_error(e):
             return None
         raise
+
+
+F18 = "F18-out-of-order-default"
+_OOO_CACHE = {}
+
+
+def _out_of_order(text):
+    """does tomlkit represent some table of this document as an OutOfOrderTableProxy (defined in separated pieces)?"""
+    r = _OOO_CACHE.get(text)
+    if r is None:
+        import tomlkit
+        from tomlkit.container import OutOfOrderTableProxy
+
+        def walk(v):
+            if isinstance(v, OutOfOrderTableProxy):
+                return True
+            if isinstance(v, dict):
+                return any(walk(v[k]) for k in v)
+            return False
+
+        try:
+            r = walk(tomlkit.parse(text))
+        except Exception:
+            r = False
+        if len(_OOO_CACHE) > 4096:
+            _OOO_CACHE.clear()
+        _OOO_CACHE[text] = r
+    return r
 
 
 _PARSE_CACHE = {}
